@@ -104,7 +104,14 @@ func (e *kvElection) heartbeatLoop(ctx context.Context) {
 			}
 			resultChan := make(chan updateResult, 1)
 
+			// The refresh runs on its own goroutine so that it can be timed out.
+			// It is not issued at all once the term is over (the loop may have
+			// been preempted between the tick and this point while Stop ran).
 			go func() {
+				if ctx.Err() != nil {
+					resultChan <- updateResult{err: ctx.Err()}
+					return
+				}
 				var opts []interface{}
 				if e.cfg.TTL > 0 {
 					opts = append(opts, e.cfg.TTL)
